@@ -12,6 +12,7 @@ from collections import OrderedDict
 from cnfgen.info import info
 
 from cnfgen.localtypes import non_negative_int
+from cnfgen import _verif
 
 class ConstraintsView:
     """Object that represents a list of constraints
@@ -340,6 +341,8 @@ not have any effect."""
             on the literal present in the clause. (default: True)
         """
         data = [(1,l) for l in clause] + ['>=', 1]
+        if _verif.ENABLED:
+            _verif.note_literals(self, [l for (_, l) in data[:-2]])
 
         self._constraints.append(data)
 
@@ -391,6 +394,8 @@ not have any effect."""
             clause. (default: True)
         """
         constraint = normalize_opb(constraint)
+        if _verif.ENABLED:
+            _verif.note_literals(self, [l for (_, l) in constraint[:-2]])
         self._constraints.append(constraint)
 
         if check:
